@@ -68,7 +68,7 @@ pub fn same_as_vec_zp() {
     assert!(same_sinks(&a, &d), "[C16/iter.bytes] an exact-size iterator serializes byte-for-byte like the vector (packed elements)");
     // and all of them are the reference encoding: 8 length bytes, 7 zero bytes, the images
     let o = ref_at::<_, 48>(&v, 1);
-    assert!(same_bytes(a.bytes(), o.bytes()), "[C07/bytes] the gap in front of a zero-copy block is governed by the alignment unit of the element");
+    assert!(same_bytes(&a.buf[1..a.len], o.bytes()), "[C07/bytes] the gap in front of a zero-copy block is governed by the alignment unit of the element");
     core::mem::forget((ra, rb, rd));
     kani::cover!(v.len() == 1, "[cover] one item reached");
     kani::cover!(v.len() == 0, "[cover] empty reached");
